@@ -200,6 +200,9 @@ func TestVerifC17SM4(t *testing.T) {
 				gKey.Free()
 				gNonce.Free()
 			}
+			// object lifetimes under concurrency: sibling AEADs are collected and finalized WHILE other
+			// goroutines use the Block and a surviving AEAD
+			lifetimeHistories(r, rng, pn, hk.N(4, 20), true, true, true)
 		})
 	}
 	r.Count("operations", total)
